@@ -78,7 +78,7 @@ CHECKS.update({
 CHECKS.update({
  "C08": ("independent pair-arithmetic reference (component formulas, exp/ln/atan2 definitions), validity predicates for inverse functions, differential against eval_f64 on real operands; exhaustive literal/real grids + random trees (proptest)",
          "Exploration: every literal form and every operator/function on in-domain real operands exhaustively; random exact-operator trees compared bit for bit; every operator/function spelling applied at the root of random exact subtrees over generic complex operands compared at the tolerance the property states, inverse functions through their defining identity and principal range.",
-         "Operands within 1e-3 of a branch cut (but not exactly on it) or of zero modulus, above 1e3 in modulus, and library-valued operands that are not generic are skipped and counted; exactly on a cut either one-sided limit is accepted; an approximate node below the root is judged one step at a time on the library's own operand values. Three recorded findings (asinh/atanh/atan of arguments below 1e-3) are printed as KNOWN-FINDING.", "4/C08, 10, 11"),
+         "Operands within 1e-3 of a branch cut (but not exactly on it) or of zero modulus, above 1e3 in modulus, and library-valued operands that are not generic are skipped and counted; exactly on a cut either one-sided limit is accepted; an approximate node below the root is judged one step at a time on the library's own operand values. Three recorded findings (asinh/atanh/atan of arguments below 1e-6) are printed as KNOWN-FINDING.", "4/C08, 10, 11"),
 })
 
 CHECKS.update({
